@@ -66,6 +66,7 @@ Spellings(c) ==
     [] c = "E" -> {<<BS, "e">>, <<BS, "x">>}
     [] c = "C" -> {<<BS, "x">>}
     [] c = "S" -> {<<"S">>, <<BS, "X2">>}
+    [] c = "A" -> {<<c>>, <<BS, "x">>, <<BS, "/">>}
     [] OTHER   -> {<<c>>, <<BS, "x">>}
 
 \* is atom sequence t a JSON-valid spelling of string s ?
